@@ -926,9 +926,85 @@ pub fn zst(a: &Args, rep: &mut Report) {
 // sentinels: the reproducers of the repaired defects stay in the checks forever
 // ------------------------------------------------------------------------------------------
 
+/// Does `$t` implement `$b`? (inherent associated consts shadow trait ones when the impl's
+/// bound holds; evaluated by the compiler, observed here at run time)
+macro_rules! implements {
+    ($t:ty : $($b:tt)+) => {{
+        trait DoesNot {
+            const IMPLS: bool = false;
+        }
+        impl<T: ?Sized> DoesNot for T {}
+        struct Probe<T: ?Sized>(std::marker::PhantomData<T>);
+        #[allow(dead_code)]
+        impl<T: ?Sized + $($b)+> Probe<T> {
+            const IMPLS: bool = true;
+        }
+        <Probe<$t>>::IMPLS
+    }};
+}
+
+/// Trait impls that would make undefined behaviour reachable from safe code, whatever the
+/// implementation behind them: a cloneable handle that gives out `&mut` or owned elements, and
+/// `Send` / `Sync` for element types that are not.
+fn unsound_surface() -> Vec<&'static str> {
+    use griddle::{hash_map as hm, hash_set as hs};
+    use std::cell::Cell;
+    use std::rc::Rc;
+    type S = Bh;
+    let mut bad = Vec::new();
+    let mut chk = |b: bool, what: &'static str| {
+        if b {
+            bad.push(what);
+        }
+    };
+    chk(implements!(hm::IterMut<'static, u64, u64>: Clone), "hash_map::IterMut is Clone (two iterators handing out &mut to the same values)");
+    chk(implements!(hm::ValuesMut<'static, u64, u64>: Clone), "hash_map::ValuesMut is Clone");
+    chk(implements!(hm::Drain<'static, u64, u64>: Clone), "hash_map::Drain is Clone (elements owned twice)");
+    chk(implements!(hs::Drain<'static, u64>: Clone), "hash_set::Drain is Clone");
+    chk(implements!(hm::OccupiedEntry<'static, u64, u64, S>: Clone), "hash_map::OccupiedEntry is Clone");
+    chk(implements!(hm::VacantEntry<'static, u64, u64, S>: Clone), "hash_map::VacantEntry is Clone");
+    chk(implements!(hm::RawOccupiedEntryMut<'static, u64, u64, S>: Clone), "hash_map::RawOccupiedEntryMut is Clone");
+    chk(implements!(hm::RawVacantEntryMut<'static, u64, u64, S>: Clone), "hash_map::RawVacantEntryMut is Clone");
+    // shared iterators behave like &(K, V): Send needs Sync elements
+    chk(implements!(hm::Iter<'static, Cell<u64>, u64>: Send), "hash_map::Iter<Cell, _> is Send");
+    chk(implements!(hm::Iter<'static, u64, Cell<u64>>: Send), "hash_map::Iter<_, Cell> is Send");
+    chk(implements!(hm::Keys<'static, Cell<u64>, u64>: Send), "hash_map::Keys<Cell, _> is Send");
+    chk(implements!(hm::Values<'static, u64, Cell<u64>>: Send), "hash_map::Values<_, Cell> is Send");
+    chk(implements!(hs::Iter<'static, Cell<u64>>: Send), "hash_set::Iter<Cell> is Send");
+    chk(implements!(hm::Iter<'static, Cell<u64>, u64>: Sync), "hash_map::Iter<Cell, _> is Sync");
+    // owners and exclusive iterators: Send needs Send elements, Sync needs Sync elements
+    chk(implements!(griddle::HashMap<Rc<u64>, u64, S>: Send), "HashMap<Rc, _> is Send");
+    chk(implements!(griddle::HashMap<u64, Rc<u64>, S>: Send), "HashMap<_, Rc> is Send");
+    chk(implements!(griddle::HashMap<u64, Cell<u64>, S>: Sync), "HashMap<_, Cell> is Sync");
+    chk(implements!(griddle::HashSet<Rc<u64>, S>: Send), "HashSet<Rc> is Send");
+    chk(implements!(griddle::HashSet<Cell<u64>, S>: Sync), "HashSet<Cell> is Sync");
+    chk(implements!(hm::IterMut<'static, u64, Rc<u64>>: Send), "hash_map::IterMut<_, Rc> is Send");
+    chk(implements!(hm::ValuesMut<'static, u64, Rc<u64>>: Send), "hash_map::ValuesMut<_, Rc> is Send");
+    chk(implements!(hm::IntoIter<Rc<u64>, u64>: Send), "hash_map::IntoIter<Rc, _> is Send");
+    chk(implements!(hm::Drain<'static, u64, Rc<u64>>: Send), "hash_map::Drain<_, Rc> is Send");
+    chk(implements!(hs::IntoIter<Rc<u64>>: Send), "hash_set::IntoIter<Rc> is Send");
+    chk(implements!(hs::Drain<'static, Rc<u64>>: Send), "hash_set::Drain<Rc> is Send");
+    chk(implements!(hm::IterMut<'static, u64, Cell<u64>>: Sync), "hash_map::IterMut<_, Cell> is Sync");
+    // and the positive side, so that the probe itself is known to work
+    if !implements!(hm::Iter<'static, u64, u64>: Clone) || !implements!(griddle::HashMap<u64, u64, S>: Send) || implements!(Rc<u64>: Send) {
+        bad.push("HARNESS: the trait probe does not work");
+    }
+    bad
+}
+
 pub fn sentinels(a: &Args, rep: &mut Report) {
     let focus = static_prop(&rep.prop);
     let _ = a;
+    // the API surface (C05: no undefined behaviour through the safe API)
+    {
+        let bad = unsound_surface();
+        rep.evaluations += 1;
+        rep.bump("surface_probes", 27);
+        for b in bad {
+            let prop = if b.starts_with("HARNESS") { crate::mon::HARNESS } else { "C05" };
+            rep.direct_violation(prop, "sentinel-surface", &format!("unsound trait implementation in the public API: {b}"), &[("kind", "surface".to_string())]);
+        }
+    }
     // D1: retain away everything, shrink_to_fit, insert
     {
         let cfg = cfg_of(ElemKind::U64, Bh::default(), usize::MAX, 1, 1, focus);
